@@ -1,0 +1,99 @@
+//go:build verif
+
+package store
+
+// This file contains no code. It carries the machine-checked contracts (structured //@ comments)
+// that /verif/govc binds to the functions of this package when built with -tags verif.
+// The datastore / cache models these contracts are written against live in /verif/specs/store.spec.
+
+// ---- keys (A-keys: the key spaces are injective and pairwise disjoint, see store.spec)
+
+//@ func hashKey(h)
+//@   trusted
+//@   ensures result == kHash(h)
+
+//@ func heightKey(h)
+//@   trusted
+//@   ensures result == kHeight(h)
+
+//@ func headerKey(h)
+//@   props C04
+//@   ensures [C04] key: result == kHash(h.Hash())
+
+// ---- invariants of the in-memory caches w.r.t. the committed datastore (C04 clause "cache coherence")
+
+//@ pure idxCacheOK() = forall h uint64 @ icHas[h] :: icHas[h] ==> dsHas[kHeight(h)] && icVal[h] == dsVal[kHeight(h)]
+
+//@ func (*heightIndexer).HashByHeight(hi, ctx, h, cache)
+//@   props C04
+//@   requires idxCacheOK()
+//@   modifies ghost:icHas, ghost:icVal
+//@   ensures [C04] coherent: idxCacheOK()
+//@   ensures [C04] found: result1 == nil ==> dsHas[kHeight(h)] && result0 == dsVal[kHeight(h)]
+//@   ensures [C04] missing: result1 != nil ==> !dsHas[kHeight(h)] && errors.Is(result1, datastore.ErrNotFound)
+
+// ---- pending batch (headers appended but not yet flushed)
+// batchOK: height -> header and hash -> height maps describe chain headers consistently (C04 clause D)
+//@ pure batchOK(b) = b != nil && (forall h uint64 @ has(b.headers, h) :: has(b.headers, h) ==> b.headers[h].Height() == h && !b.headers[h].IsZero() && sameHdr(b.headers[h], chainAt(h))) && (forall x string @ has(b.heights, x) :: has(b.heights, x) ==> has(b.headers, b.heights[x]) && hexStr(b.headers[b.heights[x]].Hash()) == x)
+
+//@ func (*batch).GetByHeight(b, height)
+//@   props C04
+//@   ensures [C04] lookup: result == ite(has(b.headers, height), b.headers[height], zeroHdr)
+
+//@ func (*batch).Get(b, hash)
+//@   props C04
+//@   ensures [C04] lookup: batchOK(b) && !result.IsZero() ==> result.Hash() == hash && has(b.headers, result.Height()) && b.headers[result.Height()] == result
+//@   ensures [C04] miss: !has(b.heights, hexStr(hash)) ==> result.IsZero()
+
+//@ func (*batch).Has(b, hash)
+//@   props C04
+//@   ensures [C04] lookup: result <==> has(b.heights, hexStr(hash))
+
+// ---- committed datastore content and header cache (C04)
+//@ pure dsHdrOK() = forall x Bytes @ dsHas[kHash(x)] :: dsHas[kHash(x)] ==> decHdr(dsVal[kHash(x)]).Hash() == x && onChain(decHdr(dsVal[kHash(x)]))
+//@ pure hdrCacheOK() = forall x Bytes @ hcHas[hexStr(x)] :: hcHas[hexStr(x)] ==> hcVal[hexStr(x)].Hash() == x && onChain(hcVal[hexStr(x)])
+//@ pure dsIdxOK() = forall h uint64 @ dsHas[kHeight(h)] :: dsHas[kHeight(h)] ==> dsVal[kHeight(h)] == chainAt(h).Hash()
+
+//@ func (*Store).get(s, ctx, hash)
+//@   props C04
+//@   unreachable return1 : datastore read errors other than ErrNotFound are not modelled (store.spec)
+//@   modifies $now
+//@   ensures [C04] found: result1 == nil ==> dsHas[kHash(hash)] && result0 == dsVal[kHash(hash)]
+//@   ensures [C04] missing: result1 != nil ==> !dsHas[kHash(hash)] && errors.Is(result1, header.ErrNotFound)
+
+//@ func (*Store).Get(s, ctx, hash)
+//@   props C04
+//@   requires hdrCacheOK() && dsHdrOK() && batchOK(s.pending)
+//@   modifies $now, ghost:hcHas, ghost:hcVal
+//@   ensures [C04] coherent: hdrCacheOK()
+//@   ensures [C04] bound-to-hash: result1 == nil ==> result0.Hash() == hash && onChain(result0)
+//@   ensures [C04] zero-on-error: result1 != nil ==> result0.IsZero()
+
+// ---- head / tail pointers (atomic.Pointer[H]) and range membership
+
+//@ func (*Store).Head(s, ctx, opts)
+//@   props C04
+//@   ensures [C04] head: (result1 == nil <==> apSet(s.contiguousHead)) && (result1 == nil ==> result0 == apVal(s.contiguousHead)) && (result1 != nil ==> result0.IsZero() && result1 == header.ErrEmptyStore)
+
+//@ func (*Store).Tail(s, ctx)
+//@   props C04
+//@   ensures [C04] tail: (result1 == nil <==> apSet(s.tailHeader)) && (result1 == nil ==> result0 == apVal(s.tailHeader)) && (result1 != nil ==> result0.IsZero() && result1 == header.ErrEmptyStore)
+
+//@ func (*Store).HasAt(s, ctx, height)
+//@   props C04
+//@   ensures [C04] in-range: result <==> (height != 0 && apSet(s.contiguousHead) && apSet(s.tailHeader) && apVal(s.tailHeader).Height() <= height && height <= apVal(s.contiguousHead).Height())
+
+//@ pure ptrsOK(s) = (apSet(s.contiguousHead) ==> onChain(apVal(s.contiguousHead))) && (apSet(s.tailHeader) ==> onChain(apVal(s.tailHeader)))
+
+//@ func (*Store).getByHeight(s, ctx, height)
+//@   props C04
+//@   requires hdrCacheOK() && dsHdrOK() && dsIdxOK() && idxCacheOK() && batchOK(s.pending) && ptrsOK(s) && s.heightIndex != nil
+//@   modifies $now, ghost:hcHas, ghost:hcVal, ghost:icHas, ghost:icVal
+//@   ensures [C04] coherent: hdrCacheOK() && idxCacheOK()
+//@   ensures [C04] exact-height: result1 == nil ==> result0.Height() == height && onChain(result0)
+//@   ensures [C04] zero-on-error: result1 != nil ==> result0.IsZero()
+//@   ensures [C04] pending-is-readable: has(s.pending.headers, height) ==> result1 == nil && (result0 == s.pending.headers[height] || result0 == apVal(s.contiguousHead) || result0 == apVal(s.tailHeader))
+
+//@ func (*Store).Has(s, ctx, hash)
+//@   props C04
+//@   ensures [C04] membership: result1 == nil && result0 ==> hcHas[hexStr(hash)] || has(s.pending.heights, hexStr(hash)) || dsHas[kHash(hash)]
